@@ -3,6 +3,7 @@
 //! vocabulary and the answer format are documented in lean/Drivers/C15.lean.  Everything printed about a
 //! graph is obtained through falcon's public API (the private counters by probing a clone).
 use falcon::il::{Block, ControlFlowGraph, Expression as E, Operation};
+use falcon::translator::BlockTranslationResult;
 use fvh::canon::catch;
 use fvh::fil::{blk_str, edge_str, expr_str, op_str, read_expr, read_op};
 use fvh::genil::{gen_expr, gen_op, GenCfg};
@@ -340,6 +341,25 @@ fn apply(gs: &mut Vec<ControlFlowGraph>, op: &str) -> String {
             }
             None => return bad,
         },
+        ("blockify", hs) => {
+            let mut instrs: Vec<(u64, ControlFlowGraph)> = Vec::new();
+            for (i, h) in hs.iter().enumerate() {
+                match h.atom().and_then(gix) {
+                    Some(h) => instrs.push((i as u64, gs[h].clone())),
+                    None => return bad,
+                }
+            }
+            let r = catch(move || BlockTranslationResult::new(instrs, 0, 0, Vec::new()).blockify());
+            match r {
+                Some(Ok(c)) => {
+                    gs[g] = c;
+                    extra_lang = true;
+                    Some("ok".to_string())
+                }
+                Some(Err(e)) => Some(fvh::canon::err_str(&e).to_string()),
+                None => None,
+            }
+        }
         _ => return bad,
     };
     let res = match res {
@@ -395,6 +415,7 @@ impl Hist {
     fn push(&mut self, op: String) {
         let g = op.split(' ').nth(1).and_then(gix).unwrap_or(0);
         let before = self.gs[g].blocks().len();
+        let before_all: Vec<usize> = self.gs.iter().map(|c| c.blocks().len()).collect();
         let src_blocks = op.split(' ').nth(2).and_then(gix).map(|h| self.gs[h].blocks().len()).unwrap_or(0);
         let r = catch(|| apply(&mut self.gs, &op)).unwrap_or_else(|| "panic".to_string());
         let ok = r.starts_with("ok");
@@ -409,6 +430,15 @@ impl Hist {
         }
         if op.starts_with("insert") && ok && src_blocks >= 2 {
             self.inserted = true;
+        }
+        if op.starts_with("blockify") && ok {
+            let srcs: Vec<usize> = op.split(' ').skip(2).filter_map(gix).map(|h| before_all[h]).collect();
+            if srcs.iter().any(|n| *n >= 2) {
+                self.appended = true;
+            }
+            if self.gs[g].blocks().len() < 1 + srcs.iter().sum::<usize>() {
+                self.merged = true;
+            }
         }
         self.ops.push(op);
     }
@@ -493,6 +523,11 @@ fn random_op(rng: &mut Rng, gc: &GenCfg, h: &Hist, g: usize) -> String {
             _ => rng.below(6) as usize,
         };
         return format!("rmins {} {} {}", gn, b, idx);
+    }
+    if rng.chance(1, 3) {
+        let n = rng.below(4);
+        let srcs: Vec<String> = (0..n).map(|_| format!(" g{}", rng.below(3))).collect();
+        return format!("blockify {}{}", gn, srcs.concat());
     }
     format!("temp {} {}", gn, rng.range(1, 64))
 }
@@ -630,6 +665,18 @@ fn gen_blockify(rng: &mut Rng, em: &mut Emit, n: usize) {
         if rng.chance(1, 4) {
             h.push(format!("merge g{}", rng.range(1, 2)));
         }
+        if rng.chance(1, 3) {
+            // the real BlockTranslationResult::blockify on 0–5 instruction graphs
+            let n = rng.below(6);
+            let srcs: Vec<String> = (0..n).map(|_| format!(" g{}", rng.range(1, 2))).collect();
+            h.push(format!("blockify g0{}", srcs.concat()));
+            if rng.chance(1, 3) {
+                h.push(format!("append g0 g{}", rng.range(1, 2)));
+                h.push("merge g0".to_string());
+            }
+            h.emit("blockify", em);
+            continue;
+        }
         if rng.chance(4, 5) {
             h.push("new_block g0".to_string());
             h.push("entry g0 0".to_string());
@@ -700,14 +747,14 @@ fn generate(tier: Tier, rng: &mut Rng, em: &mut Emit) {
     let mut r0 = rng.fork();
     gen_small(&mut r0, em, 1, None);
     gen_small(&mut r0, em, 2, None);
-    gen_small(&mut r0, em, 3, Some(if quick { 400 } else { 3_000 }));
+    gen_small(&mut r0, em, 3, Some(if quick { 400 } else { 2_000 }));
     gen_small(&mut r0, em, 4, Some(if quick { 100 } else { 1_000 }));
     let mut r1 = rng.fork();
-    gen_chains(&mut r1, em, if quick { 2_500 } else { 15_000 });
+    gen_chains(&mut r1, em, if quick { 2_500 } else { 9_000 });
     let mut r2 = rng.fork();
-    gen_blockify(&mut r2, em, if quick { 2_500 } else { 15_000 });
+    gen_blockify(&mut r2, em, if quick { 2_500 } else { 9_000 });
     let mut r3 = rng.fork();
-    gen_random(&mut r3, em, if quick { 4_000 } else { 15_000 });
+    gen_random(&mut r3, em, if quick { 4_000 } else { 9_000 });
 }
 
 fn main() {
